@@ -123,11 +123,12 @@ type VC struct {
 	onlyKinds map[string]bool
 	onlyLabels map[string]bool
 	dropped  map[string]int
+	relied   map[string]bool // callee contracts applied at call sites
 }
 
 func newVC(eng *Engine, key string) *VC {
 	return &VC{eng: eng, fnKey: key, declared: map[string]string{}, heapSort: map[string]string{},
-		abstr: map[string]bool{}, assumed: map[string]bool{}, specUsed: map[string]bool{}, oblCount: map[string]int{}, dropped: map[string]int{}}
+		abstr: map[string]bool{}, assumed: map[string]bool{}, specUsed: map[string]bool{}, oblCount: map[string]int{}, dropped: map[string]int{}, relied: map[string]bool{}}
 }
 
 func (vc *VC) fresh(prefix, sort string) string {
